@@ -93,6 +93,7 @@ public:
     void bvisit(const UPSeriesPiranha &x);
 #endif
     void bvisit(const ComplexDouble &x);
+    void bvisit(const Infty &x);
 #ifdef HAVE_SYMENGINE_MPFR
     void bvisit(const RealMPFR &x);
 #endif
